@@ -1,7 +1,7 @@
 use crate::domain::Target;
 use anyhow::{Context, Error, Result};
 use async_std::fs;
-use async_std::path::Path;
+use async_std::path::{Path, PathBuf};
 use std::io::ErrorKind;
 
 pub async fn clean_target_output_paths(target: &Target) -> Result<()> {
@@ -33,6 +33,12 @@ pub async fn clean_target_output_paths(target: &Target) -> Result<()> {
 }
 
 async fn clean_path(path: &Path) -> Result<()> {
+    // Take the path by its components (no trailing separator, no `.`), so that a path which is a symbolic link
+    // is removed as a link and never traversed
+    let std_path: &std::path::Path = path.into();
+    let path: PathBuf = std_path.components().collect::<std::path::PathBuf>().into();
+    let path = path.as_path();
+
     if path.exists().await {
         if path.is_file().await {
             fs::remove_file(&path)
